@@ -40,7 +40,7 @@ ASSUMPTIONS = [
 ]
 
 SENT = object()
-LOOKALIKES = ["+1", " 1", "1 ", "01", "-0", "1_0", "１", "1.0", "1e0", "0x1", "00", "+0", "1\n", "١"]
+LOOKALIKES = ["+1", " 1", "1 ", "01", "-0", "1_0", "１", "1.0", "1e0", "0x1", "00", "+0", "1\n", "١", "1\u0663", "1\uff11", "-1\uff10"]
 
 
 def tok_class(t):
@@ -221,7 +221,7 @@ def t_random(seed, n):
 # ------------------------------------------------------------------ exhaustive part
 
 T = ["a", "0", "1", "2", "~", "/", "é", "#", "", "-", "+1", " 1", "1 ", "01", "-0", "1_0", "１", "1.0", "1e0", "0x1",
-     "~1", "~0", "10", "length"]
+     "~1", "~0", "10", "length", "1\u0663", "11", "1\uff11"]
 E = ["s", 7, None, [10, 11], {"0": "z", "a": "y", "+1": "w", "1": "v"}]
 
 
